@@ -4,7 +4,10 @@ import graphs as gr
 PROP = "C08"
 RULE = ("pattern of every DAG(n) n<=4 under 3 node/edge insertion orders (quick) / plus every DAG(5) (thorough); every acyclic "
         "PDAG(n) n<=4 (extendable or not); random DAG patterns with 0-3 background orientations n<=8 (quick) / n<=10 (thorough). "
-        "distinct by canonical PDAG; non-trivial = the closure orients at least one edge")
+        "REPEAT / stale-state stream: for every PDAG n<=3, a quarter of PDAG(4), the patterns and a quarter of the random cases "
+        "the closure first runs on a neighbour graph (extra / moved / reversed / removed edge) in the same CPDAG object, the object "
+        "is edited in place into the target and the judged closure runs on it or on its copy(). "
+        "distinct by (canonical PDAG, repeat mode, warm-up graph); non-trivial = the closure orients at least one edge")
 EXHAUSTIVE = {"quick": "patterns of all DAG(n) n<=4; all acyclic PDAG(n) n<=4",
               "thorough": "patterns of all DAG(n) n<=5; all acyclic PDAG(n) n<=4"}
 TRUSTED = ["networkx ancestors/descendants, MixedEdgeGraph.neighbors/has_edge taken at face value",
@@ -48,7 +51,7 @@ def pattern_of(g):
     return gr.G(g["V"], D=sorted(inv), U=sorted(e for e in D if e not in inv))
 
 
-def gen_cases(tier, rng):
+def base_cases(tier, rng):
     nmax = 4 if tier == "quick" else 5
     for n in range(1, nmax + 1):
         for d in gr.enum_dag(n):
@@ -79,6 +82,56 @@ def gen_cases(tier, rng):
         yield {"kind": "rand", "g": p, "mode": 0 if len(p["U"]) <= 11 else 1}
 
 
+def warm_graph(g, r):
+    """a PDAG on the same nodes with a different skeleton / orientation: 1-2 extra edges, or one edge moved / reversed /
+    removed (the object is closed once on it before it is edited in place into g)"""
+    import copy as _c
+    h = _c.deepcopy(g)
+    adj = {tuple(sorted(e)) for k in "DU" for e in g[k]}
+    free = [(a, b) for a in g["V"] for b in g["V"] if a < b and (a, b) not in adj]
+    choice = r.random()
+    if free and choice < 0.55:
+        r.shuffle(free)
+        for a, b in free[:r.randint(1, 2)]:
+            if r.random() < 0.5:
+                h["U"].append([a, b])
+            elif gr.is_acyclic(h["V"], h["D"] + [[a, b]]):
+                h["D"].append([a, b])
+            else:
+                h["D"].append([b, a])
+        return h
+    for _ in range(10):
+        p = gr.perturb(g, r, keep_counts=choice < 0.85)
+        if p is not None:
+            prs = [tuple(sorted(e)) for k in "DU" for e in p[k]]
+            if len(prs) == len(set(prs)):
+                return p
+    return h
+
+
+def gen_cases(tier, rng):
+    """base streams, then the REPEAT / stale-state stream: the closure is run once on a neighbour graph g0 built in the same
+    object, the object is edited in place into g (all edges removed, g's edges added), and the judged closure runs on that
+    object ("same") or on its copy() ("copy")"""
+    import random as _random
+    base = list(base_cases(tier, rng))
+    yield from base
+    for i, c in enumerate(base):
+        g = c["g"]
+        n = len(g["V"])
+        if c["kind"].startswith("pdag"):
+            take = n <= 3 or i % 4 == 0
+        elif c["kind"].startswith("pat"):
+            take = "_order" not in c and n >= 3 and (n <= 4 or i % 10 == 0)
+        else:
+            take = i % 4 == 0
+        if not take or not (g["U"] or g["D"]):
+            continue
+        seed = rng.randrange(1 << 30)
+        g0 = warm_graph(g, _random.Random(seed))
+        yield dict(c, kind="rep-" + c["kind"], rep=["same", "copy"][seed % 2], g0=g0)
+
+
 def encode(case):
     g = dict(case["g"], V=gr.ordered(case, case["g"]["V"], "V"))
     if case["mode"] == 2:
@@ -105,7 +158,19 @@ def decode(case, v):
 
 def run_impl(case):
     from pywhy_graphs.algorithms.pag import _apply_meek_rules
-    P, lab, inv = gr.to_cpdag(case["g"], case)
+    if "rep" in case:
+        P, lab, inv = gr.to_cpdag(case["g0"], case)
+        _apply_meek_rules(P)                       # warm-up on the neighbour graph, result discarded
+        for name, layer in P.get_graphs().items():
+            for u, v in list(layer.edges):
+                P.remove_edge(u, v, name)
+        for k, name in (("D", "directed"), ("U", "undirected")):
+            for a, b in case["g"][k]:
+                P.add_edge(lab(a), lab(b), name)
+        if case["rep"] == "copy":
+            P = P.copy()
+    else:
+        P, lab, inv = gr.to_cpdag(case["g"], case)
     _apply_meek_rules(P)
     h = gr.from_mixed(P, inv)
     return {"V": h["V"], "D": h["D"], "U": h["U"]}
@@ -148,10 +213,15 @@ def nontrivial(case, model):
 
 
 def key(case):
-    return gr.canon(case["g"])
+    return (gr.canon(case["g"]), case.get("rep"), gr.canon(case["g0"]) if "g0" in case else None)
 
 
 def shrink(case):
+    if "rep" in case:
+        for h in gr.shrink_graph(case["g0"]):
+            if sorted(h["V"]) == sorted(case["g"]["V"]):
+                yield dict(case, g0=h)
+        return
     if case["mode"] == 2:
         for h in gr.shrink_graph(case["dag"]):
             yield dict(case, dag=h, g=pattern_of(h))
